@@ -516,7 +516,16 @@ pub fn format_block(ctx: &Context, block: &Block, shape: Shape) -> Block {
         ctx = ctx.check_toggle_formatting(stmt);
 
         let shape = shape.reset();
+        let should_format = ctx.should_format_node(stmt);
         let mut stmt = format_stmt(&ctx, stmt, shape);
+
+        // A statement which is ignored or lies outside of the formatting range keeps its exact text,
+        // including its semicolon and the comments around it
+        if !matches!(should_format, FormatNode::Normal) {
+            found_first_stmt = true;
+            formatted_statements.push((stmt, semi.to_owned()));
+            continue;
+        }
 
         // If this is the first stmt, then remove any leading newlines
         if !found_first_stmt {
@@ -584,6 +593,7 @@ pub fn format_block(ctx: &Context, block: &Block, shape: Shape) -> Block {
             ctx = ctx.check_toggle_formatting(last_stmt);
 
             let shape = shape.reset();
+            let should_format = ctx.should_format_node(last_stmt);
             let mut last_stmt = format_last_stmt(&ctx, last_stmt, shape);
             // If this is the first stmt, then remove any leading newlines
             if !found_first_stmt && matches!(ctx.should_format_node(&last_stmt), FormatNode::Normal)
@@ -594,6 +604,8 @@ pub fn format_block(ctx: &Context, block: &Block, shape: Shape) -> Block {
             // LastStmt will never need a semicolon
             // We need to check if we previously had a semicolon, and keep the comments if so
             let semicolon = match semi {
+                // An ignored or out-of-range statement keeps its semicolon as it is
+                Some(semi) if !matches!(should_format, FormatNode::Normal) => Some(semi.to_owned()),
                 Some(semi) => {
                     // Append semicolon trailing trivia to the end, but before the newline
                     // TODO: this is a bit of a hack - we should probably move newline appending to this function
